@@ -37,6 +37,24 @@ def funcs(ctx, module=None, stubs=None):
         if len(quals) == 1:
             return cands[0]
         return None
+
+    def make(fi, nm):
+        made = orders.make_func(fi.node, fn)
+        if fi.node.decorator_list and nm not in fn.setdefault('__registered__', set()):
+            # decorators run when the module is imported: functions of the same module registered ON this one
+            # (@name.register(int) def _(v): ...) are registered now, in source order
+            fn['__registered__'].add(nm)
+            mod_ = ctx.prog.modules.get(fi.qual.rsplit('.', 1)[0])
+            for st in (mod_.tree.body if mod_ is not None else ()):
+                if isinstance(st, ast.FunctionDef) and st is not fi.node:
+                    for d in st.decorator_list:
+                        root = d
+                        while isinstance(root, (ast.Call, ast.Attribute)):
+                            root = root.func if isinstance(root, ast.Call) else root.value
+                        if isinstance(root, ast.Name) and root.id == nm:
+                            orders.make_func(st, fn)
+                            break
+        return made
     consts = {}
     exprs = {}
 
@@ -45,7 +63,7 @@ def funcs(ctx, module=None, stubs=None):
             return stubs[nm]
         fi = lookup(nm)
         if fi is not None:
-            return orders.make_func(fi.node, fn)
+            return make(fi, nm)
         if nm not in consts:
             consts[nm] = None
             mods = ([ctx.prog.modules[module]] if module in ctx.prog.modules else []) + list(ctx.prog.modules.values())
@@ -113,7 +131,7 @@ def funcs(ctx, module=None, stubs=None):
         if isinstance(call.func, ast.Name) or (isinstance(call.func, ast.Attribute) and (ast.unparse(call.func.value) in ('tracklib', 'utils', 'Geometry') or (ast.unparse(call.func.value).startswith('tracklib.') and all(isinstance(x_, (ast.Attribute, ast.Name, ast.Load)) for x_ in ast.walk(call.func.value))))):
             fi = lookup(fname)
             if fi is not None:
-                return orders.make_func(fi.node, fn)
+                return make(fi, fname)
         return None
     fn.update({'__name__': name_of, '__resolve__': resolve, '__globals__': {},
                'floor': math.floor, 'ceil': math.ceil, 'sqrt': math.sqrt, 'fabs': math.fabs, 'trunc': math.trunc, 'round': round,
@@ -239,6 +257,60 @@ def guard(f, what):
     return run
 
 
+class _EnumMember(orders.PyStub):
+    """a member of an Enum: compared by identity, hashed by name"""
+
+    def __init__(self, cls, name, value):
+        self._cls, self.name, self.value = cls, name, value
+        self.isa = (cls, 'Enum')
+
+    def __repr__(self):
+        return '<%s.%s: %r>' % (self._cls, self.name, self.value)
+
+    def __str__(self):
+        return '%s.%s' % (self._cls, self.name)
+
+    def __hash__(self):
+        return hash(self.name)
+
+    def __eq__(self, other):
+        return self is other
+
+    def __ne__(self, other):
+        return self is not other
+
+    def __reduce_ex__(self, proto):
+        return self.__class__, (self._cls, self.name, self.value)
+
+    def __deepcopy__(self, memo):
+        return self
+
+    def __copy__(self):
+        return self
+
+
+class _IntMember(int):
+    """a member of an IntEnum: an int with a name"""
+
+    @classmethod
+    def make(cls, owner, name, value):
+        m = int.__new__(cls, value)
+        m._cls, m.name, m.value = owner, name, int(value)
+        return m
+
+    def __repr__(self):
+        return '<%s.%s: %d>' % (self._cls, self.name, int(self))
+
+    def __str__(self):
+        return str(int(self))
+
+    def __deepcopy__(self, memo):
+        return self
+
+    def __copy__(self):
+        return self
+
+
 class ClassRef(orders.PyStub):
     """the class object of a repository class: class constants, static methods, and construction of records"""
 
@@ -249,6 +321,26 @@ class ClassRef(orders.PyStub):
         object.__setattr__(self, '_fn', fn)
         object.__setattr__(self, 'isa', ('type',))
         object.__setattr__(self, '_consts', consts_of(ctx, clsqual, fn))
+        kind = [ast.unparse(b).split('.')[-1] for b in c.node.bases]
+        if any(k_ in ('Enum', 'IntEnum', 'Flag', 'IntFlag', 'StrEnum') for k_ in kind):
+            # an enumeration: every class-level constant is a member (name, value); IntEnum members are ints
+            if any(k_ in ('Flag', 'IntFlag', 'StrEnum') for k_ in kind) or c.methods:
+                raise orders.Unsupported('enumeration %s with methods / flags' % c.name)
+            is_int = 'IntEnum' in kind
+            members = self._consts.get('__members__')
+            if members is None:
+                members = []
+                for st in c.node.body:
+                    if isinstance(st, ast.Assign) and len(st.targets) == 1 and isinstance(st.targets[0], ast.Name) and not st.targets[0].id.startswith('_'):
+                        nm_ = st.targets[0].id
+                        val_ = self._consts.get(nm_)
+                        same = [m_ for m_ in members if m_.value == val_ and type(m_.value) is type(val_)]
+                        m_ = same[0] if same else (_IntMember.make(c.name, nm_, val_) if is_int else _EnumMember(c.name, nm_, val_))
+                        if not same:
+                            members.append(m_)
+                        self._consts[nm_] = m_
+                self._consts['__members__'] = members
+            object.__setattr__(self, '_enum', members)
         for name, node in methods_of(ctx, clsqual).items():
             params = [a.arg for a in node.args.args]
             static = any(isinstance(d, ast.Name) and d.id in ('staticmethod',) for d in node.decorator_list) or not params or params[0] not in ('self', 'cls')
@@ -312,6 +404,17 @@ class ClassRef(orders.PyStub):
                 seen.add(q)
                 c = self._ctx.prog.cls(q)
                 for b in c.node.bases:
+                    if ast.unparse(b).split('.')[-1] == 'NamedTuple':
+                        # class P(NamedTuple): x: float; y: float = 0.0
+                        import collections as _cl
+                        names_, defaults_ = [], []
+                        for st in c.node.body:
+                            if isinstance(st, ast.AnnAssign) and isinstance(st.target, ast.Name):
+                                names_.append(st.target.id)
+                                if st.value is not None:
+                                    defaults_.append(orders.ev(st.value, {}, self._fn))
+                        found = _cl.namedtuple(c.name, names_, defaults=defaults_ or None)
+                        break
                     try:
                         v = orders.ev(b, {}, self._fn)
                     except (orders.Unsupported, KeyError, AttributeError, TypeError):
@@ -324,7 +427,76 @@ class ClassRef(orders.PyStub):
             object.__setattr__(self, '_ntbase', found)
         return self.__dict__['_ntbase']
 
+    def _dataclass(self):
+        """(fields, options) when the class is decorated with @dataclass: fields = [(name, default node or None, factory node or None)] in
+        definition order, those of dataclass bases first"""
+        if '_dc' not in self.__dict__:
+            res = None
+            c = self._ctx.prog.cls(self._qual)
+            opts = None
+            for d in c.node.decorator_list:
+                nm = ast.unparse(d.func if isinstance(d, ast.Call) else d).split('.')[-1]
+                if nm == 'dataclass':
+                    opts = {'eq': True, 'frozen': False, 'order': False, 'init': True, 'repr': True}
+                    if isinstance(d, ast.Call):
+                        for kw in d.keywords:
+                            if kw.arg in opts and isinstance(kw.value, ast.Constant):
+                                opts[kw.arg] = bool(kw.value.value)
+            if opts is not None:
+                fields = []
+                for b in c.bases:
+                    for q, ci in self._ctx.prog.classes.items():
+                        if ci.name == b.split('.')[-1] and ci is not c:
+                            sub = ClassRef(self._ctx, q, self._fn)._dataclass()
+                            if sub:
+                                fields.extend(sub[0])
+                for st in c.node.body:
+                    if isinstance(st, ast.AnnAssign) and isinstance(st.target, ast.Name) and 'ClassVar' not in ast.unparse(st.annotation):
+                        default = factory = None
+                        v = st.value
+                        if isinstance(v, ast.Call) and ast.unparse(v.func).split('.')[-1] == 'field':
+                            for kw in v.keywords:
+                                if kw.arg == 'default':
+                                    default = kw.value
+                                elif kw.arg == 'default_factory':
+                                    factory = kw.value
+                        elif v is not None:
+                            default = v
+                        fields = [f_ for f_ in fields if f_[0] != st.target.id] + [(st.target.id, default, factory)]
+                res = (fields, opts)
+            object.__setattr__(self, '_dc', res)
+        return self.__dict__['_dc']
+
+    # -- enumerations: Mode(2), Mode['MIN'], for m in Mode, len(Mode), m in Mode
+    def __iter__(self):
+        if '_enum' not in self.__dict__:
+            raise TypeError('%r object is not iterable' % 'type')
+        return iter(list(self.__dict__['_enum']))
+
+    def __len__(self):
+        if '_enum' not in self.__dict__:
+            raise TypeError("object of type 'type' has no len()")
+        return len(self.__dict__['_enum'])
+
+    def __getitem__(self, name):
+        if '_enum' not in self.__dict__:
+            raise TypeError("type %r is not subscriptable" % self._qual.split('.')[-1])
+        for m_ in self.__dict__['_enum']:
+            if m_.name == name:
+                return m_
+        raise KeyError(name)
+
+    def __contains__(self, v):
+        return any(m_ is v for m_ in self.__dict__.get('_enum', ()))
+
     def __call__(self, *args, **kwargs):
+        if '_enum' in self.__dict__:
+            if len(args) != 1 or kwargs:
+                raise TypeError('an enumeration is called with one value')
+            for m_ in self.__dict__['_enum']:
+                if m_ is args[0] or (m_.value == args[0]):
+                    return m_
+            raise ValueError('%r is not a valid %s' % (args[0], self._qual.split('.')[-1]))
         obj = instance(self._ctx, self._qual, {}, self._fn, isa=all_bases(self._ctx, self._qual))
         nt = self._tuple_base()
         if nt is not None and '__new__' not in obj.methods:
@@ -337,8 +509,40 @@ class ClassRef(orders.PyStub):
                 obj.call('__init__', *args, **kwargs)
             obj.constructed = True
             return obj
+        dc = self._dataclass()
+        if dc is not None:
+            fields, opts = dc
+            obj.dcfields = tuple(f_[0] for f_ in fields)
+            obj.dcopts = opts
+            if opts['init'] and '__init__' not in self._ctx.prog.cls(self._qual).methods:
+                names_ = [f_[0] for f_ in fields]
+                if len(args) > len(names_):
+                    raise TypeError('%s.__init__() takes %d positional arguments but %d were given' % (obj.clsname, len(names_) + 1, len(args) + 1))
+                given = dict(zip(names_, args))
+                for k_, v_ in kwargs.items():
+                    if k_ not in names_:
+                        raise TypeError('%s.__init__() got an unexpected keyword argument %r' % (obj.clsname, k_))
+                    if k_ in given:
+                        raise TypeError('%s.__init__() got multiple values for argument %r' % (obj.clsname, k_))
+                    given[k_] = v_
+                for nm_, default, factory in fields:
+                    if nm_ in given:
+                        obj.fields[nm_] = given[nm_]
+                    elif factory is not None:
+                        obj.fields[nm_] = orders.ev(factory, {}, self._fn)()
+                    elif default is not None:
+                        obj.fields[nm_] = orders.ev(default, {}, self._fn)
+                    else:
+                        raise TypeError('%s.__init__() missing required argument %r' % (obj.clsname, nm_))
+                if '__post_init__' in obj.methods:
+                    obj.call('__post_init__')
+                obj.constructed = True
+                obj.frozen = opts['frozen']
+                return obj
         if '__init__' in obj.methods:
             obj.call('__init__', *args, **kwargs)
+        if dc is not None:
+            obj.frozen = dc[1]['frozen']
         obj.constructed = True          # every field comes from the repository's own constructor: a missing one is an AttributeError
         return obj
 
@@ -366,7 +570,7 @@ def all_bases(ctx, clsqual):
 
 def _carry(src, dst):
     """what a copy of a record keeps besides its fields: the class tables and the marks set at construction"""
-    for k in ('mro', 'classnames', 'constructed', 'ntfields'):
+    for k in ('mro', 'classnames', 'constructed', 'ntfields', 'dcfields', 'dcopts', 'frozen', 'closure'):
         if hasattr(src, k):
             setattr(dst, k, getattr(src, k))
 
